@@ -1503,6 +1503,67 @@ def _split_generator_loops(fn, chain, recorded):
     return changed[0]
 
 
+def _genexp_closures(fn):
+    """N21: a nested generator function without parameters whose body is one loop
+    `for T in IT: <local = expr>*; yield E` is the generator expression `(E' for T in IT)` (the
+    locals substituted) at each call `g()`; the definition goes when nothing else mentions it."""
+    import copy as _copy
+    defs = {}
+    for st in fn.body:
+        if isinstance(st, ast.FunctionDef) and not st.decorator_list and not st.args.args and not st.args.vararg \
+                and not st.args.kwarg and not st.args.kwonlyargs:
+            body = [x for x in st.body if not _is_docstring(x)]
+            if len(body) == 1 and isinstance(body[0], ast.For) and not body[0].orelse and body[0].body \
+                    and isinstance(body[0].body[-1], ast.Expr) and isinstance(body[0].body[-1].value, ast.Yield) \
+                    and body[0].body[-1].value.value is not None and all(
+                        isinstance(x, ast.Assign) and len(x.targets) == 1 and isinstance(x.targets[0], ast.Name)
+                        for x in body[0].body[:-1]):
+                lp = body[0]
+                if sum(1 for y in ast.walk(st) if isinstance(y, (ast.Yield, ast.YieldFrom))) != 1:
+                    continue
+                env = {}
+                ok = True
+                for a in lp.body[:-1]:
+                    if a.targets[0].id in env:
+                        ok = False
+                    env[a.targets[0].id] = _subst_names(_copy.deepcopy(a.value), env)
+                if ok:
+                    elt = _subst_names(_copy.deepcopy(lp.body[-1].value.value), env)
+                    defs[st.name] = (st, ast.GeneratorExp(elt=elt, generators=[ast.comprehension(
+                        target=_copy.deepcopy(lp.target), iter=_copy.deepcopy(lp.iter), ifs=[], is_async=0)]))
+    if not defs:
+        return False
+    changed = [False]
+
+    class R(ast.NodeTransformer):
+        def visit_Call(self, node):
+            self.generic_visit(node)
+            if isinstance(node.func, ast.Name) and node.func.id in defs and not node.args and not node.keywords:
+                changed[0] = True
+                return ast.fix_missing_locations(ast.copy_location(_copy.deepcopy(defs[node.func.id][1]), node))
+            return node
+    for st in fn.body:
+        if not any(st is d[0] for d in defs.values()):
+            R().visit(st)
+    for name, (d, _g) in defs.items():
+        if not any(isinstance(y, ast.Name) and y.id == name for st in fn.body if st is not d for y in ast.walk(st)):
+            fn.body.remove(d)
+    return changed[0]
+
+
+def _subst_names(e, env):
+    class S(ast.NodeTransformer):
+        def visit_Name(self, node):
+            if isinstance(node.ctx, ast.Load) and node.id in env:
+                import copy as _c
+                return ast.copy_location(_c.deepcopy(env[node.id]), node)
+            return node
+
+        def visit_Lambda(self, node):
+            return node
+    return S().visit(e)
+
+
 def _thread_none_guards(fn):
     """N20: the "lookup or None" shape left by an inlined helper:
         if C: v = None            v = X
@@ -1727,6 +1788,8 @@ def normalize_module(tree, no_inline, all_classes=None, recorded=None, all_funcs
     for c in classes.values():
         ch = chain(c)
         for fn in [b for b in c.body if isinstance(b, ast.FunctionDef)]:
+            if _genexp_closures(fn):
+                _idioms.rewrite_function(fn, c.name)
             inl.local_funcs = _closures(fn)
             _split_generator_loops(fn, ch, recorded)
             for _ in range(3):
